@@ -577,8 +577,28 @@ class Resolver:
     def calls_of(self, fn: FuncInfo) -> List[CallTarget]:
         key = id(fn.node)
         if key not in self._calls_in:
-            self._calls_in[key] = [self.resolve_call(c, fn) for c in self.calls_in_nodes(fn)]
+            cts = [self.resolve_call(c, fn) for c in self.calls_in_nodes(fn)]
+            # reading a property runs its getter: a pseudo call (zero arguments) to every package property of that name
+            props = self.properties()
+            if props:
+                for n in self._own_nodes(fn):
+                    if isinstance(n, ast.Attribute) and isinstance(n.ctx, ast.Load) and n.attr in props:
+                        fake = ast.copy_location(ast.Call(func=n, args=[], keywords=[]), n)
+                        ct = CallTarget(fake, fn)
+                        ct.funcs = list(props[n.attr])
+                        ct.bound_self = True
+                        cts.append(ct)
+            self._calls_in[key] = cts
         return self._calls_in[key]
+
+    def properties(self) -> Dict[str, List[FuncInfo]]:
+        if not hasattr(self, "_properties"):
+            out: Dict[str, List[FuncInfo]] = {}
+            for f in self.prog.functions:
+                if not f.is_lambda and "property" in f.decorators and f.cls is not None:
+                    out.setdefault(f.name, []).append(f)
+            self._properties = out
+        return self._properties
 
     def callees(self, fn: FuncInfo) -> List[FuncInfo]:
         out = []
